@@ -1,4 +1,5 @@
 import MpVerif.C15.Lemmas
+import MpVerif.Gen.Signal
 /-!
 # C15 — an interrupt is never lost and never delivered with inconsistent state
 
@@ -22,6 +23,81 @@ Still open: the destructor's `stop_ = 1` forgets one of two recorded interrupts,
 it does not terminate the process (`C15_third_exits_partial`, `C15_counterexample_third_no_exit_across_teardown`).
 -/
 namespace MpVerif.C15
+
+/-! ## the model is what the source says (`C15_gen_*`)
+
+`MpVerif.Gen.Signal` is regenerated from the clang AST of `src/solver.cc` (and the two headers) on every run:
+one list of statements per C++ function, in source order (`translators/gen_signal.py`, statement language and its
+meaning: `SrcLang.lean`).  The theorems below say that the hand model's step lists, `deliver` and `stopQuery` are
+exactly the meaning of those lists; every theorem of this file therefore speaks about the code as written.
+Swapping two stores, changing `> 1`, the exit status, `!= 0`, dropping the re-arm or the callback test, writing
+to another descriptor … makes one of these fail. -/
+
+open MpVerif.Gen in
+/-- constructor: the member initializers and the stores of the body, in source order, are the model's
+    constructor steps for `Layout.current` -/
+theorem C15_gen_ctor : Src.collect Src.ctorMicro Signal.ctor = some (ctorSteps Layout.current) := by decide
+
+open MpVerif.Gen in
+/-- destructor: the stores of the body in source order, followed by the destruction of the members -/
+theorem C15_gen_dtor : (Src.collect Src.dtorMicro Signal.dtor).map (· ++ [Micro.dFree]) = some dtorSteps := by decide
+
+open MpVerif.Gen in
+/-- `SetHandler(h, d)`: the three stores in source order, for every callback and data -/
+theorem C15_gen_setHandler (h d : Nat) :
+    Src.collect (Src.regMicro h d) Signal.setHandler = some (regSteps Layout.current h d) := by
+  simp [Signal.setHandler, Src.collect, Src.regMicro, regSteps, Layout.current, Layout.fixed]
+
+open MpVerif.Gen in
+/-- `HandleSigInt`: for every state in which the handler is the disposition of `g`, every `signal(2)` semantics
+    and every stdout state, the model's `deliver` is the execution of the source statements in order -/
+theorem C15_gen_handleSigInt (md : Mode) (s : St) (g : Sig) (hd : s.disp g = true) :
+    Src.runHandler md g Signal.handleSigInt (Src.onEntry md s g) [] = some (deliver md s g) := by
+  obtain ⟨sem, w⟩ := md
+  cases s with
+  | mk stop handler data msgPtr msgSize dispInt dispTerm intr alive halted =>
+    by_cases h0 : handler = 0 <;> cases sem <;> cases g <;>
+      simp_all [Signal.handleSigInt, Src.runHandler, Src.onEntry, Src.Cmp.eval, deliver, writeObs, St.disp, St.setDisp] <;>
+      (try (split <;> rfl))
+
+open MpVerif.Gen in
+/-- … and when the handler is not the disposition, no statement of `HandleSigInt` runs at all (default action) -/
+theorem C15_gen_not_installed (md : Mode) (s : St) (g : Sig) (hd : s.disp g = false) :
+    deliver md s g = ({ s with halted := some (.killed g) }, [.killed g]) :=
+  deliver_killed md s g hd
+
+open MpVerif.Gen in
+/-- the stop query: `SignalHandler::Stop()` when the handler object is the solver's interrupter,
+    `BasicSolver::Stop()` when the solver is its own interrupter -/
+theorem C15_gen_stop (s : St) :
+    stopQuery s = match s.intr with
+      | .obj => Signal.stopFn.op.eval s.stop Signal.stopFn.k
+      | .self => Signal.basicStop
+      | .dangling => false := by
+  cases h : s.intr <;> simp [stopQuery, h, Signal.stopFn, Signal.basicStop, Src.Cmp.eval]
+
+open MpVerif.Gen in
+/-- a registration attempt while no handler object exists runs `BasicSolver::SetHandler`, whose body is empty
+    (the model's `nreg` changes nothing), and `set_interrupter(0)` makes the solver its own interrupter -/
+theorem C15_gen_basic (h d : Nat) (s : St) :
+    Src.collect (Src.regMicro h d) Signal.basicSetHandler = some [] ∧ applyMicro s (.nreg h d) = s ∧
+    Signal.setInterrupterNullMeansSelf = true := by
+  refine ⟨by simp [Signal.basicSetHandler, Src.collect], rfl, by decide⟩
+
+open MpVerif.Gen in
+/-- the call-outs sit where the check assumes: every store is followed by its own `MP_VERIF_POINT` before the
+    next store, with these names (so a signal can be delivered in every gap, and only there) -/
+theorem C15_gen_callouts :
+    Src.named Src.ctorMicro Signal.ctor [] = some
+      [(.cAlloc, "sh.ctor.enter"), (.cIntr, "sh.ctor.after_set_interrupter"), (.cPtr, "sh.ctor.after_msg_ptr"),
+       (.cSize, "sh.ctor.after_msg_size"), (.cStop0, "sh.ctor.after_stop0"), (.cSigInt, "sh.ctor.after_signal_int"),
+       (.cSigTerm, "sh.ctor.after_signal_term")] ∧
+    Src.named Src.dtorMicro Signal.dtor [] = some
+      [(.dIntr, "sh.dtor.after_set_interrupter"), (.dStop1, "sh.dtor.after_stop1"), (.dH0, "sh.dtor.after_handler0"),
+       (.dSize0, "sh.dtor.after_msg_size0")] ∧
+    Src.named (Src.regMicro 1 2) Signal.setHandler [] = some
+      [(.setH 0, "sh.set.after_handler_clear"), (.setD 2, "sh.set.after_data"), (.setH 1, "sh.set.after_handler")] := by
+  decide
 
 /-! ## stop counter -/
 
@@ -475,6 +551,83 @@ theorem C15_schedule_wellformed (L : Layout) (prog : List Macro) (sch : List (Na
   refine ⟨steps_schedule _ _ _, ?_⟩
   rw [pcRun_steps, steps_schedule]
   exact hw
+
+/-! ## every theorem with hypotheses has a non-trivial instance (statement audit, round 4)
+
+The instances below *apply* the theorems to concrete histories with signals before, inside and after the
+registration, under both `signal(2)` semantics and with a failing stdout, and discharge every hypothesis by
+evaluation — so no hypothesis is unsatisfiable or met only by the empty history. -/
+
+/-- a history: construction with a SIGINT delivered right after `signal(SIGINT, …)` (gap 6) -/
+private def exPre : List Ev := schedule (expandProg Layout.current [.ctor]) 0 [(6, .int)]
+/-- … continued by a complete registration of (1, 2) and a solve step -/
+private def exPost : List Ev := [.step (.setH 0), .step (.setD 2), .step (.setH 1), .step .work]
+
+/-- `C15_no_lost`: SIGTERM right after the constructor, then a registration and a solve step -/
+example : stopQuery (run ⟨.sysv, false⟩ init (exPre ++ .sig .term :: exPost)).1 = true :=
+  C15_no_lost ⟨.sysv, false⟩ exPre .term exPost (.live none) (.live (some (1, 2)))
+    (by decide) (by decide) (by decide) (by decide) (by decide)
+
+/-- `C15_no_lost` at the earliest installed point: SIGINT after `signal(SIGINT, …)`, before `signal(SIGTERM, …)` -/
+example :
+    let pre := (ctorSteps Layout.current).take 6 |>.map Ev.step
+    stopQuery (run .bsd init (pre ++ .sig .int :: (.step .cSigTerm :: exPost))).1 = true :=
+  C15_no_lost .bsd _ .int _ .cS1 (.live (some (1, 2))) (by decide) (by decide) (by decide) (by decide) (by decide)
+
+/-- `C15_pairing` inside the registration window (after `data_ = 2`, before `handler_ = 1`) while the old
+    registration (3, 4) has been cleared: the hypothesis `cb h d ∈ obs` is not satisfiable there — no callback — … -/
+example :
+    let pre := exPre ++ [.step (.setH 0), .step (.setD 4), .step (.setH 3), .step (.setH 0), .step (.setD 2)]
+    pcRun Layout.current .idle pre = some (.dat 2) ∧
+    (deliver .bsd (run .bsd init pre).1 .int).2 = [.brk 18 true, .rearm .int] := by decide
+
+/-- … and satisfiable at a `live` point, where the theorem pins the pair down -/
+example :
+    let pre := exPre ++ exPost
+    PC.curReg (.live (some (1, 2))) = some (1, 2) ∧ Obs.cb 1 2 ∈ (deliver .sysv (run .sysv init pre).1 .term).2 ∧
+    pcRun Layout.current .idle pre = some (.live (some (1, 2))) ∧ (run .sysv init pre).1.halted = none := by decide
+
+example : PC.curReg (.live (some (1, 2))) = some (1, 2) :=
+  C15_pairing .sysv (exPre ++ exPost) .term (.live (some (1, 2))) (by decide) (by decide) 1 2 (by decide)
+
+/-- `C15_callback_invoked` -/
+example : (deliver .bsd (run .bsd init (exPre ++ exPost)).1 .int).2.filter
+      (fun o => match o with | .cb _ _ => true | _ => false) = [Obs.cb 1 2] :=
+  C15_callback_invoked Layout.current .bsd (exPre ++ exPost) .int 1 2 (by decide) (by decide) (by decide) (by decide)
+
+/-- `C15_third_exits_partial`: three signals spread over the constructor tail, the registration and the solve step -/
+example :
+    let pre := (ctorSteps Layout.current).take 6 |>.map Ev.step
+    let post := [.sig .int, .step .cSigTerm, .step (.setH 0), .sig .term, .step (.setD 2), .step (.setH 1), .step .work, .sig .int]
+    (run .bsd init (pre ++ post)).1.halted ≠ none :=
+  C15_third_exits_partial .bsd _ _ .cS1 (.live (some (1, 2))) (by decide) (by decide) (by decide) (by decide) (by decide)
+
+/-- `C15_no_early_exit`: two signals, one of them before the `signal()` calls of a *second* handler object (handled by
+    the disposition the first object left installed) -/
+example :
+    let life1 := schedule (expandProg Layout.current [.ctor, .work, .dtor]) 0 []
+    let pre := life1 ++ ((ctorSteps Layout.current).take 4 |>.map Ev.step)
+    let post := [.sig .int, .step .cSigInt, .step .cSigTerm, .step .work, .sig .term, .step .work]
+    (run .bsd init (pre ++ .step .cStop0 :: post)).1.halted ≠ some .exit1 :=
+  C15_no_early_exit .bsd _ _ (.live none) (by decide) (by decide) (by decide) (by decide) (by decide)
+
+/-- `C15_after_teardown` / `C15_break_text_safe` after a history with a registration and interrupts: nothing is
+    called, nothing is written -/
+example :
+    let pre := exPre ++ exPost ++ (dtorSteps.map Ev.step)
+    pcRun Layout.current .idle pre = some .idle ∧ (run .bsd init pre).1.halted = none ∧
+    (deliver .bsd (run .bsd init pre).1 .int).2 = [.brk 0 true, .rearm .int] := by decide
+
+example : Obs.cb 1 2 ∉ (deliver .bsd (run .bsd init (exPre ++ exPost ++ (dtorSteps.take 3).map Ev.step)).1 .int).2 :=
+  C15_after_teardown Layout.current .bsd _ .int .dH (by decide) (by decide) (by decide) 1 2
+
+/-- `C15_gen_handleSigInt` in a state where everything happens: sysv semantics, failing stdout, a registered
+    callback, `stop_ = 1` -/
+example :
+    let s := (run ⟨.sysv, false⟩ init (exPre ++ exPost)).1
+    s.disp .term = true ∧ s.stop = 1 ∧ s.handler = 1 ∧
+    Src.runHandler ⟨.sysv, false⟩ .term MpVerif.Gen.Signal.handleSigInt (Src.onEntry ⟨.sysv, false⟩ s .term) [] =
+      some ({ s with stop := 2 }, [.brkFail, .cb 1 2, .rearm .term]) := by decide
 
 /-! ## non-vacuity -/
 
